@@ -108,6 +108,17 @@ proof fn exact_amb(tr: Seq<Transition>, lt: Seq<LocalTimeType>, local: int, a: L
     let r: Result<MappedLocalTime<LocalTimeType>, Error> = Ok(MappedLocalTime::Ambiguous(a, b));
     assert(sound(tr, lt, local, r->Ok_0->Ambiguous_0, ka, true) && sound(tr, lt, local, r->Ok_0->Ambiguous_1, kb, true));
 }
+proof fn sorted_from_adjacent(tr: Seq<Transition>)
+    requires forall|j: int| 0 <= j && j + 1 < tr.len() ==> (#[trigger] tr[j]).unix_leap_time < tr[j + 1].unix_leap_time
+    ensures forall|i: int, j: int| 0 <= i < j < tr.len() ==> (#[trigger] tr[i]).unix_leap_time < (#[trigger] tr[j]).unix_leap_time
+{
+    assert forall|i: int, j: int| 0 <= i < j < tr.len() implies (#[trigger] tr[i]).unix_leap_time < (#[trigger] tr[j]).unix_leap_time by { sorted_step(tr, i, j); }
+}
+proof fn sorted_step(tr: Seq<Transition>, i: int, j: int)
+    requires forall|k: int| 0 <= k && k + 1 < tr.len() ==> (#[trigger] tr[k]).unix_leap_time < tr[k + 1].unix_leap_time, 0 <= i < j < tr.len()
+    ensures tr[i].unix_leap_time < tr[j].unix_leap_time
+    decreases j - i
+{ if i + 1 < j { sorted_step(tr, i, j - 1); assert(tr[j - 1].unix_leap_time < tr[j].unix_leap_time); } }
 spec fn from_local_post(tr: Seq<Transition>, lt: Seq<LocalTimeType>, local: int, r: Result<MappedLocalTime<LocalTimeType>, Error>) -> bool {
     &&& r is Ok
     &&& (r->Ok_0 is Single) ==> (exists|k: int| #[trigger] sound(tr, lt, local, r->Ok_0->Single_0, k, true))
@@ -167,6 +178,8 @@ impl TimeZone for Utc { type Offset = Utc; }
     u.struct(F, 'TimeZoneName', derive='Clone, Copy, PartialEq, Eq', expect_fields='struct TimeZoneName { bytes: [u8; 8], }')
     u.struct(F, 'LocalTimeType', derive='Clone, Copy, PartialEq, Eq', expect_fields='struct LocalTimeType { ut_offset: i32, is_dst: bool, name: Option<TimeZoneName>, }')
     u.struct(F, 'LeapSecond', expect_fields='struct LeapSecond { unix_leap_time: i64, correction: i32, }')
+    u.consts_all(F)
+    u.consts_all('src/offset/local/tz_info/mod.rs')
     u.raw(clean_struct(src('src/offset/mod.rs').enum('LocalResult'), derive=None) + '\ntype MappedLocalTime<T> = LocalResult<T>;')
     u.raw(clean_struct(src(FR).enum('RuleDay'), derive='Clone, Copy'))
     u.struct(FR, 'AlternateTime', derive='Clone, Copy')
@@ -207,6 +220,20 @@ fn bsearch_transitions(s: &[Transition], key: i64) -> (r: Result<usize, usize>)
                        ("return Ok(MappedLocalTime::Single(after_ltt));", W1 % ('after_ltt', ' + 1', 'after_ltt', ' + 1')),
                        ("return Ok(MappedLocalTime::Ambiguous(prev, after_ltt));", "proof { post_amb(tr, lt, local_leap_time as int, prev, it.index@ as int, after_ltt, it.index@ as int + 1); others_not_strict(tr, lt, local_leap_time as int, it.index@ as int); exact_amb(tr, lt, local_leap_time as int, prev, it.index@ as int, after_ltt, it.index@ as int + 1); }"),
                        ("return Ok(MappedLocalTime::None);", "proof { post_none(tr, lt, local_leap_time as int); others_not_strict(tr, lt, local_leap_time as int, it.index@ as int); exact_none(tr, lt, local_leap_time as int); }")])
+    u.raw('''
+#[verifier::external_body]
+fn tzname_equal(a: &TimeZoneName, b: &TimeZoneName) -> (r: bool) { unimplemented!() }
+''')
+    u.stub(F, 'unix_leap_time_to_unix_time', IMPL)
+    u.prove(F, 'validate', IMPL, cid='TimeZoneRef::validate',
+            subst=[('self.transitions.last()', 'last_transition(self.transitions)', 'std slice::last through its contract stub'),
+                   ('(Some(x), Some(y)) => x.equal(y),', '(Some(x), Some(y)) => Self::tzname_equal(x, y),', 'TimeZoneName::equal (array comparison) through an uninterpreted stub')],
+            loops=[("while i_transition < self.transitions.len() {", "            invariant local_time_types_size == self.local_time_types@.len(), local_time_types_size > 0, i_transition <= self.transitions@.len(),\n"
+                    "                forall|j: int| 0 <= j < i_transition ==> (#[trigger] self.transitions@[j]).local_time_type_index < local_time_types_size,\n"
+                    "                forall|j: int| 0 <= j < i_transition && j + 1 < self.transitions@.len() ==> (#[trigger] self.transitions@[j]).unix_leap_time < self.transitions@[j + 1].unix_leap_time,\n"
+                    "            decreases self.transitions@.len() - i_transition,"),
+                   ("while i_leap_second < self.leap_seconds.len() {", "            invariant i_leap_second <= self.leap_seconds@.len(),\n            decreases self.leap_seconds@.len() - i_leap_second,")],
+            hints=[("let min_interval =", "        proof { sorted_from_adjacent(self.transitions@); }")])
     u.prove(F, 'unix_time_to_unix_leap_time', IMPL, cid='TimeZoneRef::unix_time_to_unix_leap_time',
             loops=[("while i < self.leap_seconds.len() {", "            invariant i == 0, self.leap_seconds@.len() == 0, unix_leap_time == unix_time,\n            decreases self.leap_seconds@.len() - i,")])
     u.prove(F, 'find_local_time_type', IMPL, cid='TimeZoneRef::find_local_time_type',
